@@ -74,3 +74,8 @@ check("C03", "other",
       "operation x all preferred-engine option combinations over source->transfer->downstream trees; z3 decides content equality "
       "of moved trees with direct evaluation for all leaf contents within the slot bound; columns, absence of spurious "
       "ColumnError/EngineError and the transfer/require contracts are path assertions.", BSV, "3/C03")
+check("C07", "other",
+      "Bounded symbolic execution of Processor.process with hooks that evaluate for real (real iteration engine; SQL through "
+      "the SMT semantics of the real compiled statements on a symbolic database); z3 decides that executing the processed tree "
+      "yields the rows of direct evaluation for all leaf contents within the bound; input-tree snapshot, hook-source "
+      "evaluability and trivial-relation short-cuts are path assertions.", BSV + " and sqlmodel (symbolic database)", "3/C07")
